@@ -15,11 +15,24 @@
 #include <hgraph/types/time_series/ts_delta.h>
 #include <hgraph/types/value/value_builder.h>
 
-#ifndef SHAPE
-#define SHAPE 0  // 0 TSS<int>  1 TSD<int,TS<int>>  2 TSL<TS<int>> (dynamic)  3 TSB{a,b}  4 TSW<int,N,min>  5 TSD<int,TSS<int>>
+// shapes: 0 TSS<int>  1 TSD<int,TS<int>>  2 TSL<TS<int>> (dynamic)  3 TSB{a,b}  4 TSW<int,N,min>
+#ifndef ONLY_SHAPE
+#define ONLY_SHAPE -1  // -1: the shape is enumerated (verif_choice); 0..4: only that shape (dev runs)
 #endif
 #ifndef NCYC
-#define NCYC 3
+#define NCYC 2
+#endif
+#ifndef NCYC_TSS
+#define NCYC_TSS (NCYC + 1)
+#endif
+#ifndef NCYC_TSD
+#define NCYC_TSD NCYC
+#endif
+#ifndef NCYC_TSW
+#define NCYC_TSW (2 * NCYC)
+#endif
+#ifndef BIG_LAST
+#define BIG_LAST NOPS
 #endif
 #ifndef NOPS
 #define NOPS 2
@@ -28,7 +41,7 @@
 #define GMAX 1000
 #endif
 #ifndef NK
-#define NK 3  // concrete key universe {0..NK-1}
+#define NK 2  // concrete key universe {0..NK-1}
 #endif
 #ifndef RAMP
 #define RAMP 0  // thorough: RAMP extra keys 100.. inserted one per op in a first cycle, to cross slot-store growth boundaries
@@ -42,633 +55,40 @@
 
 using namespace hkts;
 
-namespace {
-constexpr int NU = NK + RAMP;  // universe size
-inline I64 key_of(int u) { return u < NK ? (I64)u : (I64)(100 + (u - NK)); }
-inline int index_of(I64 key) {
-    if (key >= 0 && key < NK) return (int)key;
-    if (key >= 100 && key < 100 + RAMP) return NK + (int)(key - 100);
-    return -1;
-}
-
-TSOutput *g_out = nullptr;
-Consumer *g_cons = nullptr;
-
-bool ok_model = true, ok_disjoint = true, ok_added_present = true, ok_removed_absent = true, ok_no_trace = true,
-     ok_apply = true, ok_values = true, ok_views = true, ok_quiet = true, ok_window = true, ok_struct = true,
-     ok_apply_unpub = true, ok_views_unpub = true, ok_values_unpub = true;
-bool g_unpublished_used = false;  // TSD: the history contains a key that is live without a published value
-
-// read a range of int keys into a membership vector over the universe; foreign keys are counted
-template <class R> int read_keys(R range, bool *in) {
-    for (int u = 0; u < NU; u++) in[u] = false;
-    int foreign = 0;
-    for (auto v : range) {
-        int u = index_of(as_i64(v));
-        if (u < 0 || in[u]) foreign++; else in[u] = true;
-    }
-    return foreign;
-}
-void read_set_value(const ValueView &set, bool *in, int &foreign) {
-    for (int u = 0; u < NU; u++) in[u] = false;
-    foreign = 0;
-    if (!set.has_value()) { foreign = 1000; return; }
-    auto s = set.as_set();
-    int n = 0;
-    for (int u = 0; u < NU; u++) {
-        Value key{Int{key_of(u)}};
-        in[u] = s.contains(key.view());
-        n += in[u] ? 1 : 0;
-    }
-    foreign = (int)s.size() - n;
-}
-
-// ================================================================================================
-#if SHAPE == 0
-const TSValueTypeMetaData *shape_schema() { return schemas().tss; }
-bool g_model[NU];
-bool g_prev[NU];
-bool g_ticked = false;
-constexpr int N_OPKINDS = 4;  // none, add k, remove k, clear
-void apply_op(int op, DateTime t) {
-    if (op == 0) return;
-    auto ov = g_out->view(t);
-    auto os = ov.as_set();
-    auto m = os.begin_mutation(t);
-    g_ticked = true;
-    if (op == 3) {
-        m.clear();
-        for (int u = 0; u < NU; u++) g_model[u] = false;
-        return;
-    }
-    int k = verif_choice("key", NK);
-    Value key{Int{(I64)k}};
-    if (op == 1) {
-        bool r = m.add(key.view());
-        ok_struct &= (r == !g_model[k]);
-        if (!g_model[k] && g_prev[k]) verif_reach("removed_and_readded_same_cycle");
-        g_model[k] = true;
-    } else {
-        bool r = m.remove(key.view());
-        ok_struct &= (r == g_model[k]);
-        if (g_model[k] && !g_prev[k]) verif_reach("added_and_removed_same_cycle");
-        g_model[k] = false;
-    }
-}
-void ramp(DateTime t) {
-    auto ov = g_out->view(t);
-    auto os = ov.as_set();
-    auto m = os.begin_mutation(t);
-    for (int j = 0; j < RAMP; j++) {
-        Value key{Int{key_of(NK + j)}};
-        bool r = m.add(key.view());
-        ok_struct &= r;
-        g_model[NK + j] = true;
-    }
-    g_ticked = true;
-    if (RAMP) verif_reach("growth_ramp");
-}
-template <class SetV> void observe(const SetV &s, bool modified, const ValueView *delta, bool *cur_out) {
-    bool cur[NU], add[NU], rem[NU];
-    int n = 0;
-    for (int u = 0; u < NU; u++) {
-        Value key{Int{key_of(u)}};
-        cur[u] = s.contains(key.view());
-        n += cur[u] ? 1 : 0;
-    }
-    bool vals[NU];
-    int f0 = read_keys(s.values(), vals);
-    int fa = read_keys(s.added(), add);
-    int fr = read_keys(s.removed(), rem);
-    ok_views &= (f0 == 0) & (fa == 0) & (fr == 0) & ((int)s.size() == n);
-    for (int u = 0; u < NU; u++) {
-        ok_views &= (vals[u] == cur[u]);
-        ok_model &= (cur[u] == g_model[u]);
-        ok_disjoint &= !(add[u] & rem[u]);
-        ok_added_present &= (!add[u]) | cur[u];
-        ok_removed_absent &= (!rem[u]) | !cur[u];
-        ok_no_trace &= ((!rem[u]) | g_prev[u]) & ((!add[u]) | !g_prev[u]);
-        ok_apply &= (cur[u] == ((g_prev[u] & !rem[u]) | add[u]));
-        if (!modified) ok_quiet &= (!add[u]) & (!rem[u]);
-    }
-    if (delta) {
-        ok_views &= (delta->has_value() == modified);
-        if (delta->has_value()) {
-            bool da[NU], dr[NU];
-            int x, y;
-            auto b = delta->as_bundle();
-            read_set_value(b.at("added"), da, x);
-            read_set_value(b.at("removed"), dr, y);
-            ok_views &= (x == 0) & (y == 0);
-            for (int u = 0; u < NU; u++) ok_views &= (da[u] == add[u]) & (dr[u] == rem[u]);
-        }
-    }
-    if (cur_out) for (int u = 0; u < NU; u++) cur_out[u] = cur[u];
-}
-void check_cycle(DateTime t) {
-    bool cur[NU];
-    {
-        auto ov = g_out->view(t);
-        ok_model &= (ov.modified() == g_ticked);
-        auto os = ov.as_set();
-        ValueView d = ov.delta_value();
-        observe(os, g_ticked, &d, cur);
-    }
-    {
-        auto iv = g_cons->view(t);
-        ok_views &= (iv.modified() == g_ticked);
-        auto is = iv.as_set();
-        ValueView d = iv.delta_value();
-        observe(is, g_ticked, &d, nullptr);
-        if (g_ticked) {
-            Value cap = capture_delta(iv);
-            ValueView cv = cap.view();
-            observe(is, true, &cv, nullptr);
-        }
-    }
-    for (int u = 0; u < NU; u++) g_prev[u] = cur[u];
-    g_ticked = false;
-}
-#endif
-
-// ================================================================================================
-#if SHAPE == 1
-const TSValueTypeMetaData *shape_schema() { return schemas().tsd; }
-struct Entry { bool live = false; bool cvalid = false; I64 val = 0; };
-Entry g_model[NU];
-Entry g_prev[NU];
-bool g_written[NU];  // element written (and still live) in the current cycle
-bool g_ticked = false;
-constexpr int N_OPKINDS = EXT_OPS ? 7 : 5;  // none, set k v, erase k, clear, element write k v, [create k, invalidate element k]
-void apply_op(int op, DateTime t) {
-    if (op == 0) return;
-    auto ov = g_out->view(t);
-    auto od = ov.as_dict();
-    if (op == 3) {
-        auto m = od.begin_mutation(t);
-        m.clear();
-        for (int u = 0; u < NU; u++) { g_model[u] = Entry{}; g_written[u] = false; }
-        g_ticked = true;
-        return;
-    }
-    int k = verif_choice("key", NK);
-    Value key{Int{(I64)k}};
-    if (op == 1) {
-        I64 v = verif_range("val", -VMAX, VMAX);
-        Value val{Int{v}};
-        auto m = od.begin_mutation(t);
-        m.set(key.view(), val.view());
-        if (!g_model[k].live && g_prev[k].live) verif_reach("removed_and_readded_same_cycle");
-        g_model[k] = Entry{true, true, v};
-        g_written[k] = true;
-        g_ticked = true;
-    } else if (op == 2) {
-        auto m = od.begin_mutation(t);
-        bool r = m.erase(key.view());
-        ok_struct &= (r == g_model[k].live);
-        if (g_model[k].live && !g_prev[k].live) verif_reach("added_and_removed_same_cycle");
-        g_model[k] = Entry{};
-        g_written[k] = false;
-        g_ticked = true;
-    } else if (op == 4) {
-        if (!g_model[k].live) return;
-        I64 v = verif_range("val", -VMAX, VMAX);
-        write_i64(od.at(key.view()), t, v);
-        verif_reach("element_only_write");
-        g_model[k].cvalid = true; g_model[k].val = v;
-        g_written[k] = true;
-        g_ticked = true;
-    } else if (op == 5) {  // create the key without writing its element
-        auto m = od.begin_mutation(t);
-        bool fresh = !g_model[k].live;
-        (void)m.at(key.view());
-        if (!fresh) return;  // at() on an existing key is a pure lookup
-        // a key erased earlier in this cycle is resurrected with its element intact
-        bool resurrect = g_prev[k].live;
-        g_model[k].live = true;
-        g_model[k].cvalid = resurrect ? g_prev[k].cvalid : false;
-        g_model[k].val = resurrect ? g_prev[k].val : 0;
-        if (!g_model[k].cvalid) { g_unpublished_used = true; verif_reach("key_created_without_value"); }
-        g_ticked = true;
-    } else if (op == 6) {
-        if (!g_model[k].live || !g_model[k].cvalid) return;
-        bool r = invalidate(od.at(key.view()), t);
-        ok_struct &= r;
-        g_model[k].cvalid = false;
-        g_written[k] = false;
-        g_unpublished_used = true;
-        verif_reach("element_invalidated");
-        g_ticked = true;
-    }
-}
-void ramp(DateTime t) {
-    auto ov = g_out->view(t);
-    auto od = ov.as_dict();
-    auto m = od.begin_mutation(t);
-    for (int j = 0; j < RAMP; j++) {
-        Value key{Int{key_of(NK + j)}};
-        Value val{Int{(I64)(1000 + j)}};
-        m.set(key.view(), val.view());
-        g_model[NK + j] = Entry{true, true, 1000 + j};
-        g_written[NK + j] = true;
-    }
-    g_ticked = true;
-    if (RAMP) verif_reach("growth_ramp");
-}
-struct Obs { bool live[NU], cvalid[NU], add[NU], rem[NU], mod[NU]; I64 val[NU]; };
-template <class DictV> void observe(const DictV &d, bool modified, const ValueView *delta, Obs &o) {
-    int n = 0;
-    for (int u = 0; u < NU; u++) {
-        Value key{Int{key_of(u)}};
-        o.live[u] = d.contains(key.view());
-        o.cvalid[u] = false; o.val[u] = 0;
-        if (o.live[u]) {
-            n++;
-            auto el = d.at(key.view());
-            o.cvalid[u] = el.valid();
-            if (o.cvalid[u]) o.val[u] = as_i64(el.value());
-        }
-    }
-    bool keys[NU];
-    int f0 = read_keys(d.keys(), keys);
-    int fa = read_keys(d.added_keys(), o.add);
-    int fr = read_keys(d.removed_keys(), o.rem);
-    int fm = read_keys(d.modified_keys(), o.mod);
-    ok_views &= (f0 == 0) & (fa == 0) & (fr == 0) & (fm == 0) & ((int)d.size() == n);
-    bool &apply = g_unpublished_used ? ok_apply_unpub : ok_apply;
-    bool &values = g_unpublished_used ? ok_values_unpub : ok_values;
-    for (int u = 0; u < NU; u++) {
-        ok_views &= (keys[u] == o.live[u]);
-        ok_model &= (o.live[u] == g_model[u].live);
-        if (g_model[u].live) {
-            ok_model &= (o.cvalid[u] == g_model[u].cvalid);
-            if (g_model[u].cvalid) ok_model &= (o.val[u] == g_model[u].val);
-        }
-        ok_disjoint &= !(o.add[u] & o.rem[u]);
-        ok_added_present &= (!o.add[u]) | o.live[u];
-        // structural part of value(t) == value(t_prev) (+) delta(t)
-        apply &= (o.live[u] == ((g_prev[u].live & !o.rem[u]) | o.add[u]));
-        apply &= (!o.rem[u]) | !o.live[u];                                  // removed keys are absent afterwards
-        apply &= ((!o.rem[u]) | g_prev[u].live) & ((!o.add[u]) | !g_prev[u].live);  // ... were present before / no trace of cancelled pairs
-        // modified entries: exactly the live entries whose element was written in this cycle
-        values &= (o.mod[u] == (g_written[u] & g_model[u].live & g_model[u].cvalid));
-        values &= (!o.add[u]) | o.mod[u];  // an added entry comes with its value
-        if (o.live[u] && g_prev[u].live && !o.mod[u] && o.cvalid[u] && g_prev[u].cvalid) ok_values &= (o.val[u] == g_prev[u].val);
-        if (!modified) ok_quiet &= (!o.add[u]) & (!o.rem[u]) & (!o.mod[u]);
-    }
-    if (delta) {
-        ok_views &= (delta->has_value() == modified);
-        if (delta->has_value()) {
-            bool dr[NU];
-            int x;
-            auto b = delta->as_bundle();
-            read_set_value(b.at("removed"), dr, x);
-            bool &views = g_unpublished_used ? ok_views_unpub : ok_views;
-            views &= (x == 0);
-            ValueView mm = b.at("modified");
-            ok_views &= mm.has_value();
-            if (mm.has_value()) {
-                auto map = mm.as_map();
-                int nm = 0;
-                for (int u = 0; u < NU; u++) {
-                    Value key{Int{key_of(u)}};
-                    bool in = map.contains(key.view());
-                    views &= (dr[u] == o.rem[u]) & (in == o.mod[u]);
-                    if (in) { nm++; if (o.mod[u]) ok_values &= (as_i64(map.at(key.view())) == o.val[u]); }
-                }
-                views &= ((int)map.size() == nm);
-            }
-        }
-    }
-}
-void check_cycle(DateTime t) {
-    Obs po, co;
-    {
-        auto ov = g_out->view(t);
-        ok_model &= (ov.modified() == g_ticked);
-        auto od = ov.as_dict();
-        ValueView d = ov.delta_value();
-        observe(od, g_ticked, &d, po);
-    }
-    {
-        auto iv = g_cons->view(t);
-        ok_views &= (iv.modified() == g_ticked);
-        auto id = iv.as_dict();
-        ValueView d = iv.delta_value();
-        observe(id, g_ticked, &d, co);
-        if (g_ticked) {
-            Value cap = capture_delta(iv);
-            ValueView cv = cap.view();
-            observe(id, true, &cv, co);
-        }
-    }
-    for (int u = 0; u < NU; u++) {
-        g_prev[u].live = po.live[u]; g_prev[u].cvalid = po.cvalid[u]; g_prev[u].val = po.val[u];
-        g_written[u] = false;
-    }
-    g_ticked = false;
-}
-#endif
-
-// ================================================================================================
-#if SHAPE == 2 || SHAPE == 3
-// indexed collections of TS<int>: dynamic TSL (2; grows on first touch of an index) and TSB{a,b} (3)
-#ifndef NI
-#define NI 3  // index universe of the dynamic list
-#endif
-#if SHAPE == 2
-constexpr int NX = NI;
-const TSValueTypeMetaData *shape_schema() { return schemas().tsl_dyn; }
-#else
-constexpr int NX = 2;
-const TSValueTypeMetaData *shape_schema() { return schemas().tsb; }
-#endif
-struct Elem { bool valid = false; I64 val = 0; };
-int g_size = (SHAPE == 3 ? 2 : 0), g_prev_size = (SHAPE == 3 ? 2 : 0);
-Elem g_model[NX], g_prev[NX];
-bool g_written[NX];
-bool g_ticked = false;
-constexpr int N_OPKINDS = 4;  // none, write element i, whole-value write (all elements), whole-value write (first element only / prefix)
-Value whole_value(I64 v0, I64 v1, bool both) {
-#if SHAPE == 3
-    BundleBuilder bb{ValuePlanFactory::instance().type_for(schemas().tsb->value_schema)};
-    Value a{Int{v0}}, b{Int{v1}};
-    bb.set("a", a.view());
-    if (both) bb.set("b", b.view());
-    return bb.build();
-#else
-    ListBuilder lb{ValuePlanFactory::instance().type_for(schemas().i64)};
-    lb.push_back(Int{v0});
-    if (both) lb.push_back(Int{v1});
-    return lb.build();
-#endif
-}
-void apply_op(int op, DateTime t) {
-    if (op == 0) return;
-    auto ov = g_out->view(t);
-    if (op == 1) {
-        int i = verif_choice("idx", NX);
-        I64 v = verif_range("val", -VMAX, VMAX);
-        write_i64(ov.indexed_child_at((std::size_t)i), t, v);
-        if (i >= g_size) { g_size = i + 1; verif_reach("list_grew"); }
-        if (g_written[i]) verif_reach("element_written_twice_in_cycle");
-        g_model[i] = Elem{true, v};
-        g_written[i] = true;
-        g_ticked = true;
-    } else {
-        bool both = (op == 2);
-#if SHAPE == 2
-        if (!both && g_size > 1) return;  // a shorter whole value on a longer dynamic list is not exercised
-        if (both && g_size > 2) return;
-#endif
-        I64 v0 = verif_range("val", -VMAX, VMAX), v1 = verif_range("val", -VMAX, VMAX);
-        Value whole = whole_value(v0, v1, both);
-        auto m = ov.begin_mutation(t);
-        (void)m.copy_value_from(whole.view());
-        verif_reach("whole_value_write");
-        g_model[0] = Elem{true, v0}; g_written[0] = true;
-        if (both) { g_model[1] = Elem{true, v1}; g_written[1] = true; }
-        int n = both ? 2 : 1;
-        if (n > g_size) g_size = n;
-        g_ticked = true;
-    }
-}
-void ramp(DateTime) {}
-struct Obs { int size; bool valid[NX], mod[NX]; I64 val[NX]; };
-template <class V> int size_of(const V &v) {
-#if SHAPE == 2
-    auto l = v.as_list();
-    return (int)l.size();
-#else
-    auto b = v.as_bundle();
-    return (int)b.size();
-#endif
-}
-template <class V> void observe(const V &v, bool modified, const ValueView *delta, Obs &o) {
-    o.size = size_of(v);
-    ok_model &= (o.size == g_size);
-    ok_apply &= (o.size >= g_prev_size);
-    for (int i = 0; i < NX; i++) { o.valid[i] = false; o.mod[i] = false; o.val[i] = 0; }
-    for (int i = 0; i < o.size && i < NX; i++) {
-        auto el = v.indexed_child_at((std::size_t)i);
-        o.valid[i] = el.valid();
-        o.mod[i] = el.modified();
-        if (o.valid[i]) o.val[i] = as_i64(el.value());
-        ok_model &= (o.valid[i] == g_model[i].valid);
-        if (g_model[i].valid) ok_model &= (o.val[i] == g_model[i].val);
-        ok_values &= (o.mod[i] == g_written[i]);
-        // unmodified elements keep their previous state
-        if (!g_written[i]) {
-            ok_apply &= (o.valid[i] == g_prev[i].valid);
-            if (g_prev[i].valid) ok_apply &= (o.val[i] == g_prev[i].val);
-        }
-        if (!modified) ok_quiet &= !o.mod[i];
-    }
-    if (delta) {
-        ok_views &= (delta->has_value() == modified);
-        if (delta->has_value()) {
-#if SHAPE == 2
-            auto map = delta->as_map();
-            int nm = 0;
-            for (int i = 0; i < NX; i++) {
-                Value key{Int{(I64)i}};
-                bool in = map.contains(key.view());
-                ok_views &= (in == o.mod[i]);
-                if (in) { nm++; if (o.mod[i]) ok_values &= (as_i64(map.at(key.view())) == o.val[i]); }
-            }
-            ok_views &= ((int)map.size() == nm);
-#else
-            auto b = delta->as_bundle();
-            const char *names[2] = {"a", "b"};
-            for (int i = 0; i < 2; i++) {
-                ValueView f = b.at(names[i]);
-                ok_views &= (f.has_value() == o.mod[i]);
-                if (f.has_value() && o.mod[i]) ok_values &= (as_i64(f) == o.val[i]);
-            }
-#endif
-        }
-    }
-}
-void check_cycle(DateTime t) {
-    Obs po, co;
-    {
-        auto ov = g_out->view(t);
-        ok_model &= (ov.modified() == g_ticked);
-        ValueView d = ov.delta_value();
-        observe(ov, g_ticked, &d, po);
-    }
-    {
-        auto iv = g_cons->view(t);
-        ok_views &= (iv.modified() == g_ticked);
-        ValueView d = iv.delta_value();
-        observe(iv, g_ticked, &d, co);
-        if (g_ticked) {
-            Value cap = capture_delta(iv);
-            ValueView cv = cap.view();
-            observe(iv, true, &cv, co);
-        }
-    }
-    g_prev_size = po.size;
-    for (int i = 0; i < NX; i++) { g_prev[i].valid = po.valid[i]; g_prev[i].val = po.val[i]; g_written[i] = false; }
-    g_ticked = false;
-}
-#endif
-
-// ================================================================================================
-#if SHAPE == 4
-// TSW<int, N, min>: N and min are enumerated (N <= WMAXN, 1 <= min <= N)
-#ifndef WMAXN
-#define WMAXN 3
-#endif
-int g_n = 1, g_min = 1;
-const TSValueTypeMetaData *g_schema = nullptr;
-const TSValueTypeMetaData *shape_schema() { return g_schema; }
-int g_count = 0, g_prev_count = 0;
-I64 g_win[WMAXN], g_prev_win[WMAXN];
-DateTime g_wt[WMAXN];
-bool g_valid = false, g_ticked = false, g_pushed = false, g_cleared = false, g_rolled = false;
-I64 g_pushed_val = 0, g_evicted = 0;
-constexpr int N_OPKINDS = 4;  // none, push v, clear, clear then push v   (the runtime accepts one push per cycle)
-void do_push(TSWDataMutationView &m, DateTime t) {
-    I64 v = verif_range("val", -VMAX, VMAX);
-    Value val{Int{v}};
-    m.push(val.view());
-    g_rolled = false;
-    if (g_count == g_n) {
-        g_evicted = g_win[0];
-        for (int i = 1; i < g_n; i++) { g_win[i - 1] = g_win[i]; g_wt[i - 1] = g_wt[i]; }
-        g_count--;
-        g_rolled = true;
-        verif_reach("window_rolled");
-    }
-    g_win[g_count] = v; g_wt[g_count] = t; g_count++;
-    g_pushed = true; g_pushed_val = v;
-}
-void apply_op(int op, DateTime t) {
-    if (op == 0) return;
-    if (g_ticked) return;  // one mutation scope per cycle: push | clear | clear+push
-    auto ov = g_out->view(t);
-    auto ow = ov.as_window();
-    auto m = ow.begin_mutation(t);
-    if (op == 2 || op == 3) { m.clear(); g_count = 0; g_cleared = true; verif_reach("window_cleared"); }
-    if (op == 1 || op == 3) do_push(m, t);
-    g_valid = true;
-    g_ticked = true;
-}
-void ramp(DateTime) {}
-template <class V> void observe(const V &v, const ValueView *delta) {
-    auto w = v.as_window();
-    int n = (int)w.size();
-    ok_window &= (n == g_count) & ((int)w.period() == g_n) & ((int)w.min_period() == g_min);
-    for (int i = 0; i < g_count && i < n; i++) ok_window &= (as_i64(w.at((std::size_t)i)) == g_win[i]) & (w.time_at((std::size_t)i) == g_wt[i]);
-    int k = 0;
-    bool same = true;
-    for (auto x : w.values()) { if (k < g_count) same &= (as_i64(x) == g_win[k]); k++; }
-    ok_window &= same & (k == g_count);
-    ok_window &= (w.full() == (g_count == g_n));
-    // validity: the window exists from its first tick; it is all_valid once min_period values are held
-    ok_window &= (v.valid() == g_valid) & (v.all_valid() == (g_valid && g_count >= g_min));
-    // value(t) == value(t_prev) (+) delta(t): previous contents (dropped by a clear), plus the pushed value, last N kept
-    {
-        I64 exp[WMAXN + 1];
-        int e = 0;
-        if (!g_cleared) for (int i = 0; i < g_prev_count; i++) exp[e++] = g_prev_win[i];
-        bool has_delta = delta && delta->has_value();
-        if (delta) ok_views &= (has_delta == g_pushed);
-        if (has_delta) exp[e++] = as_i64(*delta);
-        int drop = e > g_n ? e - g_n : 0;
-        ok_apply &= (n == e - drop);
-        for (int i = 0; i + drop < e && i < n; i++) ok_apply &= (as_i64(w.at((std::size_t)i)) == exp[i + drop]);
-        if (has_delta && g_pushed) ok_values &= (as_i64(*delta) == g_pushed_val);
-    }
-}
-void check_cycle(DateTime t) {
-    {
-        auto ov = g_out->view(t);
-        ok_model &= (ov.modified() == g_ticked);
-        ValueView d = ov.delta_value();
-        observe(ov, &d);
-        auto ow = ov.as_window();
-        auto dw = ow.data_view();
-        bool rolled = g_pushed && g_rolled;
-        ok_window &= (dw.has_removed_value(t) == rolled) & (dw.cleared(t) == g_cleared);
-        if (rolled && dw.has_removed_value(t)) ok_window &= (as_i64(dw.removed_value(t)) == g_evicted);
-    }
-    {
-        auto iv = g_cons->view(t);
-        ok_views &= (iv.modified() == g_ticked);
-        ValueView d = iv.delta_value();
-        observe(iv, &d);
-        if (g_pushed && !g_cleared) {  // capture_delta documents that it rejects ticks in which clear() participated
-            Value cap = capture_delta(iv);
-            ValueView cv = cap.view();
-            observe(iv, &cv);
-        }
-    }
-    g_prev_count = g_count;
-    for (int i = 0; i < g_count; i++) g_prev_win[i] = g_win[i];
-    g_ticked = false; g_pushed = false; g_cleared = false; g_rolled = false;
-}
-#define SHAPE_SETUP 1
-void shape_setup() {
-    g_n = 1 + verif_choice("wn", WMAXN);
-    g_min = 1 + verif_choice("wmin", g_n);
-    g_schema = TypeRegistry::instance().tsw(schemas().i64, (std::size_t)g_n, (std::size_t)g_min);
-    if (g_min > 1) verif_reach("min_period_above_one");
-}
-#endif
-
-#if SHAPE < 0 || SHAPE > 4
-#error "shape not implemented yet"
-#endif
-}  // namespace
+#define SHAPE 0
+#define SHAPE_NS shape_tss
+#include "C05_delta_shape.inc"
+#undef SHAPE
+#undef SHAPE_NS
+#define SHAPE 1
+#define SHAPE_NS shape_tsd
+#include "C05_delta_shape.inc"
+#undef SHAPE
+#undef SHAPE_NS
+#define SHAPE 2
+#define SHAPE_NS shape_tsl
+#include "C05_delta_shape.inc"
+#undef SHAPE
+#undef SHAPE_NS
+#define SHAPE 3
+#define SHAPE_NS shape_tsb
+#include "C05_delta_shape.inc"
+#undef SHAPE
+#undef SHAPE_NS
+#define SHAPE 4
+#define SHAPE_NS shape_tsw
+#include "C05_delta_shape.inc"
+#undef SHAPE
+#undef SHAPE_NS
 
 extern "C" int harness_main() {
-#ifdef SHAPE_SETUP
-    shape_setup();
-#endif
-    const auto *schema = shape_schema();
-    TSOutput out{*schema};
-    g_out = &out;
-    Consumer cons{schema, "VerifC05Root"};
-    g_cons = &cons;
-
-    std::int64_t base = verif_range("base", 0, 1000000);
-    DateTime t = MIN_ST + TimeDelta{base};
-    { auto v = cons.view(t); v.bind_output(out.view(t)); }
-    check_cycle(t);  // before the first tick: empty value, empty delta
-#if RAMP > 0
-    ramp(t);
-    check_cycle(t);
-    t = t + TimeDelta{verif_range("gap", 1, GMAX)};
-#endif
-    for (int cyc = 0; cyc < NCYC; cyc++) {
-        if (cyc > 0) t = t + TimeDelta{verif_range("gap", 1, GMAX)};
-        bool any = false;
-        for (int i = 0; i < NOPS; i++) {
-            int op = verif_choice("op", N_OPKINDS);
-            any |= (op != 0);
-            apply_op(op, t);
-        }
-        check_cycle(t);
-        if (!any) verif_reach("idle_cycle");
+    (void)schemas();  // concrete set-up shared by all shapes
+    int shape = ONLY_SHAPE >= 0 ? ONLY_SHAPE : verif_choice("shape", 5);
+    switch (shape) {
+        case 0: verif_reach("shape_tss"); return shape_tss::run();
+        case 1: verif_reach("shape_tsd"); return shape_tsd::run();
+        case 2: verif_reach("shape_tsl"); return shape_tsl::run();
+        case 3: verif_reach("shape_tsb"); return shape_tsb::run();
+        default: verif_reach("shape_tsw"); return shape_tsw::run();
     }
-    verif_assert(ok_struct, "C05.mutation_result_matches_model");
-    verif_assert(ok_model, "C05.value_matches_mirror_model");
-    verif_assert(ok_disjoint, "C05.added_and_removed_disjoint");
-    verif_assert(ok_added_present, "C05.added_elements_present");
-    verif_assert(ok_removed_absent, "C05.removed_elements_absent");
-    verif_assert(ok_no_trace, "C05.cancelled_mutations_leave_no_trace");
-    verif_assert(ok_apply, "C05.value_equals_previous_plus_delta");
-    verif_assert(ok_values, "C05.modified_entries_carry_new_value_others_keep_old");
-    verif_assert(ok_quiet, "C05.no_delta_without_tick");
-    verif_assert(ok_window, "C05.window_holds_last_n_in_order");
-    verif_assert(ok_views, "C05.delta_views_agree");
-    // contradicted by the unchanged tree (see notes/C05.md): evaluated only on histories that contain a TSD key
-    // which is live but has no published value (created without a write, or element invalidated)
-    verif_assert(ok_values_unpub, "C05.modified_entries_with_unpublished_keys");
-    verif_assert(ok_views_unpub, "C05.delta_views_agree_with_unpublished_keys");
-    verif_assert(ok_apply_unpub, "C05.value_equals_previous_plus_delta_with_unpublished_keys");
-    verif_reach("end");
-    return 0;
 }
